@@ -36,11 +36,11 @@ class Amorph(Indicator):
         output = {"analysis": self._analysis_method.__name__}
 
         for name, value in self.__dict__.items():
-            if name == "candles":
+            if name in ["candles", "managed_indicators", "sub_indicators"]:
                 continue
             if name == "timeframe_fill" and self.timeframe is None:
                 continue
-            if not name.startswith("_") and value:
+            if not name.startswith("_") and value is not None:
                 output[name] = deepcopy(value)
 
         if self._analysis_kwargs:
